@@ -103,6 +103,36 @@ impl<TLocation> NonConstantValueInner<TLocation> {
         }
     }
 
+    /// Replace every variable in this value, at any depth (i.e. also inside objects and
+    /// lists), with `replace(variable)`.
+    pub fn substitute_variables(
+        self,
+        replace: &impl Fn(VariableNameWrapper) -> NonConstantValueInner<TLocation>,
+    ) -> Self
+    where
+        TLocation: Copy,
+    {
+        match self {
+            NonConstantValueInner::Variable(variable_name) => replace(variable_name),
+            NonConstantValueInner::List(items) => NonConstantValueInner::List(
+                items
+                    .into_iter()
+                    .map(|item| item.map(|value| value.substitute_variables(replace)))
+                    .collect(),
+            ),
+            NonConstantValueInner::Object(name_value_pairs) => NonConstantValueInner::Object(
+                name_value_pairs
+                    .into_iter()
+                    .map(|pair| NameValuePair {
+                        name: pair.name,
+                        value: pair.value.map(|value| value.substitute_variables(replace)),
+                    })
+                    .collect(),
+            ),
+            other => other,
+        }
+    }
+
     pub fn variables(&self) -> Vec<VariableNameWrapper> {
         // TODO return impl Iterator
         match self {
